@@ -651,9 +651,26 @@ def norm_index(k, n):
     return S.ite(S.cmp("<", k, 0), S.add(k, n), k)
 
 
+def _as_index_tensor(k):
+    if isinstance(k, SymList):
+        snap = k.copy()
+        return Tensor((snap.length(),), lambda i: snap.at(i), dtype="int")
+    if isinstance(k, list):
+        items = list(k)
+        if not items:
+            return Tensor((0,), lambda i: 0, dtype="int")
+        if all(isinstance(unwrap(x), bool) for x in items):
+            raise Unsupported("boolean list index")
+        t = from_nested(items)
+        t.dtype = "int"
+        return t
+    return k
+
+
 def getitem(t, key):
     if not isinstance(key, tuple):
         key = (key,)
+    key = tuple(_as_index_tensor(k) for k in key)
     # boolean mask or fancy index
     if len(key) >= 1 and isinstance(key[0], Tensor) or any(isinstance(k, Tensor) for k in key):
         return fancy_get(t, key)
@@ -730,9 +747,35 @@ def fancy_get(t, key):
     return Tensor(shape, fn, dtype=t.dtype)
 
 
+def fancy_set(t, idx, val):
+    """t[idx] = val for a 1-d array and an integer index list of concrete length (numpy: later entries win)"""
+    m = unwrap(idx.shape[0])
+    if t.ndim != 1 or idx.ndim != 1 or not isinstance(m, int):
+        raise Unsupported("fancy assignment form (needs 1-d target and concrete-length index list)")
+    old = t.copy()
+    vt = Tensor.lift(val)
+    vt = vt.frozen() if vt is not None else None
+    fi = idx.frozen()
+    n = t.shape[0]
+    targets = [norm_index(fi.at(k), n) for k in range(m)]
+
+    def fn(i):
+        r = old.at(i)
+        for k in range(m):
+            v = val if vt is None else (vt.at(k) if not dim_is(vt.shape[0], 1) or m == 1 else vt.at(0))
+            c = S.cmp("==", i, targets[k])
+            r = S.ite(c, v, r) if isinstance(c, Sym) else (v if c else r)
+        return r
+
+    t.set_fn(fn, "fancy setitem")
+
+
 def setitem(t, key, val):
     if not isinstance(key, tuple):
         key = (key,)
+    key = tuple(_as_index_tensor(k) for k in key)
+    if len(key) == 1 and isinstance(key[0], Tensor):
+        return fancy_set(t, key[0], val)
     if any(isinstance(k, Tensor) for k in key) or any(k is None for k in key):
         raise Unsupported("fancy/None index assignment")
     key = key + (slice(None),) * (t.ndim - len(key))
